@@ -211,6 +211,11 @@ func init() {
 					q.Body["biases"] = bl
 				}
 				seed := int64(q.Body["biasApplyRandomSeed"].(int))
+				if r.chance(0.15) { // an omitted seed is seed 0
+					delete(q.Body, "biasApplyRandomSeed")
+					seed = 0
+					o.count("real:seed-omitted")
+				}
 				st, resp := decideBody(q.Body)
 				o.count("real:" + q.Method)
 				m := Meta{Case: c, Stage: "response-biases", Input: J{"request": q.Body}, Key: string(q.JSON()), Trivial: len(bl) == 0}
